@@ -73,33 +73,34 @@ type Exec struct {
 	decs    []int
 	pending [][]int
 
-	nd         []ndEntry
-	objCounter int
-	freshCtr   int
-	globals    map[*ssa.Global]*Object
-	steps      int
-	depth      int
-	cur        ssa.Instruction
-	stack      []*Frame
-	hidden     map[string]interface{}
-	noSample   bool // path depends on a coincidence of ideal values: no native validation sample
-	tags       []tagCond
-	pcSet      map[string]bool
-	curThread  int
-	events     []raceEvent
-	trace      []opRec
-	outcome    int
-	hasOutcome bool
-	modelCtx   *bctx
-	lenModel   map[string]*Term
-	guess      map[string]string
-	nPC        int
-	inGuard    bool
-	forkCount  int
-	memo       map[string]*Term
-	upgrade    bool
-	cuts       map[string][]*Term
-	funcsSeen  map[string]int
+	nd             []ndEntry
+	objCounter     int
+	freshCtr       int
+	globals        map[*ssa.Global]*Object
+	steps          int
+	depth          int
+	cur            ssa.Instruction
+	stack          []*Frame
+	hidden         map[string]interface{}
+	noSample       bool     // path depends on a coincidence of ideal values: no native validation sample
+	lateGoroutines []func() // bodies of go statements executed by the code under test
+	tags           []tagCond
+	pcSet          map[string]bool
+	curThread      int
+	events         []raceEvent
+	trace          []opRec
+	outcome        int
+	hasOutcome     bool
+	modelCtx       *bctx
+	lenModel       map[string]*Term
+	guess          map[string]string
+	nPC            int
+	inGuard        bool
+	forkCount      int
+	memo           map[string]*Term
+	upgrade        bool
+	cuts           map[string][]*Term
+	funcsSeen      map[string]int
 
 	res *PathResult
 }
@@ -1476,6 +1477,11 @@ func (e *Exec) runPath(entry *ssa.Function) (res *PathResult) {
 		}
 	}()
 	e.callFunction(entry, nil)
+	for len(e.lateGoroutines) > 0 {
+		g := e.lateGoroutines[0]
+		e.lateGoroutines = e.lateGoroutines[1:]
+		g()
+	}
 	e.stop("done", "")
 	return
 }
@@ -1717,7 +1723,14 @@ func (e *Exec) step(fr *Frame, ins ssa.Instruction) {
 			d()
 		}
 	case *ssa.Go:
-		e.unsupported("go statement")
+		// a goroutine started by the code under test: a legitimate schedule runs it after
+		// the harness has finished with its observations, so its body is executed last
+		// (sound for properties that must hold under every schedule; its code is still
+		// covered by the implicit panic obligations)
+		call := i.Call
+		fnv, args := e.prepareCall(fr, &call)
+		cc := &i.Call
+		e.lateGoroutines = append(e.lateGoroutines, func() { e.invokeCall(fr, cc, fnv, args) })
 	case *ssa.ChangeInterface:
 		fr.env[i] = e.eval(fr, i.X)
 	case *ssa.ChangeType:
